@@ -64,6 +64,30 @@ Proof.
   intros Hl. exact (bounded_join_large _ l o UO Il Io Hid ni D OK TO OT size Hs vu l' V J' Hl).
 Qed.
 
+(* the log it leaves IS the log holding the kept entries: its reverse next index (the only other
+   state later merges read) names exactly the predecessors of the kept entries and has forgotten the
+   dropped ones *)
+Theorem C16_bounded_join_forgets_dropped_entries ops r src l o size lu :
+  wf ops -> Z.of_nat (length ops) < two63 ->
+  nth_error (s_logs (run ops)) r = Some l -> nth_error (s_logs (run ops)) src = Some o ->
+  l_id l = l_id o -> 0 <= size ->
+  join l o false (-1) = (lu, Ok tt) -> order_total lu ->
+  exists vu l',
+    values lu = Some vu /\ join l o false size = (l', Ok tt) /\
+    forall n, In n (okeys (l_next l')) <-> named_in (lastn (Z.to_nat size) (oslice vu)) n.
+Proof.
+  intros W Hlen L O Hid Hs J OT. destruct (sinv_run ops W) as [UO IL]. pose proof (IL r l L) as Il. pose proof (IL src o O) as Io.
+  unfold join, join_reads in J.
+  assert (E0 : N.eqb (l_id l) (l_id o) = true) by (apply N.eqb_eq; exact Hid). rewrite E0 in J. cbn [negb] in J.
+  destruct (difference (l_entries o) (oslice (l_heads o)) l) as [ni|] eqn:D; [|discriminate].
+  destruct (forallb (entry_ok l) (oslice ni)) eqn:OK; cbn [negb] in J; [|discriminate].
+  cbn [Z.ltb Z.compare] in J. injection J as <-.
+  assert (TO : times_ok (j_log l o ni)).
+  { intros e He. apply ents_In in He. destruct He as [k He]. apply (join_entries _ l o UO Il Io Hid ni D) in He.
+    destruct He as [He|He]; [eapply (times_in_range ops r l W Hlen L)|eapply (times_in_range ops src o W Hlen O)]; apply ents_In; eauto. }
+  exact (bounded_join_next _ l o UO Il Io Hid ni D OK TO OT size Hs).
+Qed.
+
 From IpfsLog Require Import Model.ExampleHist Proofs.WfBool.
 Example C16_nonvacuous :
   (* replica 0 (two entries) merges replica 2 (three heads) with bound 3: keeps the 3 newest of the 4 *)
@@ -78,4 +102,5 @@ Qed.
 
 Print Assumptions C16_join_never_panics.
 Print Assumptions C16_bounded_join_keeps_newest.
+Print Assumptions C16_bounded_join_forgets_dropped_entries.
 Print Assumptions C16_nonvacuous.
